@@ -224,8 +224,13 @@ func Concretise(g GenCase, rng *rand.Rand) (Case, bool) {
 			st.Shape = "otherscheme"
 		case st.Src == "authz":
 			st.Shape = idle
-		case st.Src == "hdr" || st.Src == "hdrquery":
+		case st.Src == "hdrquery":
+			// "empty": the query parameter is there, without a value - no credentials either
+			st.Shape = pick(rng, "absent", "otherscheme", "empty")
+		case st.Src == "hdr":
 			st.Shape = pick(rng, "absent", "otherscheme")
+		case st.Src == "query" || st.Src == "cookie":
+			st.Shape = pick(rng, "absent", "empty", "empty") // name present, value empty
 		case st.Src == "body":
 			st.Shape = pick(rng, "absent", "otherparam") // no body at all / a form without the parameter
 		default:
